@@ -752,6 +752,11 @@ def drain(F, R):
                     if m['k'] == 'mem': extra.append(m['n'])
                     if m['k'] == 'call' and not m.get('op'): extra.append(m.get('n') + '()')
                 ok2 = hasdisp and not extra and 'HANDLED_TRUE' in ' '.join(f.expr(d) for d in deps if f.nodes[d] and f.nodes[d]['k'] == 'ref')
+                # ... and by its HANDLED_TRUE bit alone: a region that deferred or rejected the same event does not postpone the
+                # completion of the region that took a transition (results of the regions are OR-ed into one code)
+                bits = sorted({f.nodes[d]['n'] for d in deps if f.nodes[d] and f.nodes[d]['k'] == 'ref' and f.nodes[d].get('dk') == 'enum' and f.nodes[d]['n'].startswith('HANDLED_')})
+                if ok2 and bits != ['HANDLED_TRUE']:
+                    ok2 = False; extra.append('result bits %s' % bits)
                 R.ob('C10.first', ok2, {'func': f.q, 'armed_by': f.expr(n['args'][1])})
                 if not ok2:
                     R.find('C10.first', f, 'completion-arm', 'the completion pass after a dispatch must be armed by HANDLED_TRUE of that dispatch alone; the flag given to the completion helper is %s and also depends on %s' % (f.expr(n['args'][1]), sorted(set(extra)) or 'nothing from the dispatch'), where=f.at(i))
